@@ -37,9 +37,11 @@ def rand_val(rng, typ, level, legal_bias=True):
     if typ == "u8":
         return rng.choice([0, 1, 15, 16, 128, 255, rng.below(256)])
     if typ == "i16":
+        if legal_bias:
+            return rng.choice([-1, 0, 2048, 4095, rng.below(4096)])
         return rng.choice([-1, 0, 2048, 4095, 4096, -2, -32768, 32767, rng.below(4096)])
     lm = LEGAL_MAX.get(level, 4095)
-    if legal_bias and rng.chance(3, 4):
+    if legal_bias or rng.chance(2, 3):
         return rng.choice([0, lm, lm // 2, rng.below(lm + 1)])
     return rng.choice([lm + 1, 65535, 32768, rng.below(65536)])
 
